@@ -149,8 +149,15 @@ def witnesses():
                'jobs:\n  x:\n    runs-on: ubuntu-latest\n    steps:\n      - run: echo\n')
     callee3 = ('on:\n  workflow_call:\n    inputs:\n' + ''.join('      %s:\n        type: string\n        required: true\n%s' % (n, d) for n, d in
                [('nodef', ''), ('nulldef', '        default: null\n'), ('emptydef', "        default: ''\n"), ('baredef', '        default:\n'),
-                ('tildedef', '        default: ~\n'), ('valdef', '        default: v\n'), ('exprreq', '')]).replace("      exprreq:\n        type: string\n        required: true\n", "      exprreq:\n        type: string\n        required: ${{ github.event_name == 'push' }}\n") +
-               '    secrets:\n      s1:\n        required: true\n      s2:\n        required: ${{ github.event_name == \'push\' }}\n      s3:\n'
+                ('tildedef', '        default: ~\n'), ('valdef', '        default: v\n'), ('exprreq', ''),
+                ('reqcap', ''), ('requp', ''), ('reqyes', ''), ('reqon', ''), ('reqquoted', '')]).replace("      exprreq:\n        type: string\n        required: true\n", "      exprreq:\n        type: string\n        required: ${{ github.event_name == 'push' }}\n")
+               # spellings of the boolean: True / TRUE are booleans, yes / on / 'true' are strings - both derivations must agree
+               .replace("      reqcap:\n        type: string\n        required: true\n", "      reqcap:\n        type: string\n        required: True\n")
+               .replace("      requp:\n        type: string\n        required: true\n", "      requp:\n        type: string\n        required: TRUE\n")
+               .replace("      reqyes:\n        type: string\n        required: true\n", "      reqyes:\n        type: string\n        required: yes\n")
+               .replace("      reqon:\n        type: string\n        required: true\n", "      reqon:\n        type: string\n        required: on\n")
+               .replace("      reqquoted:\n        type: string\n        required: true\n", "      reqquoted:\n        type: string\n        required: 'true'\n") +
+               '    secrets:\n      s1:\n        required: true\n      s2:\n        required: ${{ github.event_name == \'push\' }}\n      s3:\n      s4:\n        required: True\n      s5:\n        required: yes\n'
                '    outputs:\n      o1:\n        value: v\n      o2:\n      o3: {}\n      o4: ~\n'
                'jobs:\n  x:\n    runs-on: ubuntu-latest\n    steps:\n      - run: echo\n')
     use_out = ('  u:\n    needs: c\n    runs-on: ubuntu-latest\n    steps:\n      - run: echo ${{ needs.c.outputs.o1 }} ${{ needs.c.outputs.o2 }} '
